@@ -29,6 +29,7 @@ type Cache struct {
 	started    bool
 	eventSubs  map[string]*EventSubscription
 	inCh       chan *EventSubscription
+	stopCh     chan struct{}
 	unsubQueue *timerqueue.Queue
 	resetSub   mq.Unsubscriber
 
@@ -104,12 +105,14 @@ func (c *Cache) Start() error {
 		return errors.New("cache: already started")
 	}
 	inCh := make(chan *EventSubscription, 100)
+	stopCh := make(chan struct{})
 	c.eventSubs = make(map[string]*EventSubscription)
 	c.unsubQueue = timerqueue.New(c.mqUnsubscribe, c.unsubscribeDelay)
 	c.inCh = inCh
+	c.stopCh = stopCh
 
 	for i := 0; i < c.workers; i++ {
-		go c.startWorker(inCh)
+		go c.startWorker(inCh, stopCh)
 	}
 
 	resetSub, err := c.mq.Subscribe("system", func(subj string, payload []byte, _ error) {
@@ -312,15 +315,31 @@ func (c *Cache) Stop() {
 	if !c.started {
 		return
 	}
-	close(c.inCh)
+	// The workers are stopped through stopCh. inCh is left open, as
+	// connections that are still being disposed of may enqueue work.
+	close(c.stopCh)
 	c.unsubQueue.Clear()
 	c.resetSub = nil
 	c.started = false
 }
 
-func (c *Cache) startWorker(ch chan *EventSubscription) {
-	for eventSub := range ch {
-		eventSub.processQueue()
+func (c *Cache) startWorker(ch chan *EventSubscription, stop chan struct{}) {
+	for {
+		select {
+		case eventSub := <-ch:
+			eventSub.processQueue()
+		case <-stop:
+			return
+		}
+	}
+}
+
+// enqueue passes the event subscription to a worker. It is dropped if the
+// cache is stopped.
+func (c *Cache) enqueue(e *EventSubscription) {
+	select {
+	case c.inCh <- e:
+	case <-c.stopCh:
 	}
 }
 
